@@ -90,24 +90,27 @@ def run(prog, rep):
     enum = tu.enums.get("PTreeType_")
     if not enum:
         raise AnalysisBroken("enum PTreeType_ not found")
-    sw = [b for b in nw.blocks.values() if b.term and b.term.get("kind") == "switch"]
-    if len(sw) != 1:
-        raise AnalysisBroken("p_tree_new_full: expected one switch")
+    # which functions are installed for which tree type: facts on the type parameter at every store into a *_func slot
+    # (a switch, an if/else-if chain, in place or in a static helper - the inlined view covers all of them)
+    tp = nw.param_names()[0]
+    cases = {}
     home = {}
     for (un, tag) in VARIANTS:
         for f in prog.unit(un).functions.values():
             home[f.name] = un
-    cases = {}
-    for (to, on) in sw[0].succs:
-        if on.startswith("case:"):
-            slots = {}
-            for s in nw.blocks[to].stmts:
-                for n in walk(s):
-                    if n["k"] == "asg":
-                        l = strip_casts(n["l"])
-                        if l is not None and l["k"] == "member" and l["field"].endswith("_func"):
-                            slots[l["field"]] = fn_of_ref(n["r"])
-            cases[int(on[5:])] = slots
+
+    def on_slot(st, b, i, stmt):
+        for n in walk(stmt):
+            if n["k"] == "asg":
+                l = strip_casts(n["l"])
+                if l is not None and l["k"] == "member" and l["field"].endswith("_node_func"):
+                    v = guards.lookup(st, tp)
+                    if v is not None:
+                        cases.setdefault(v, {})[l["field"]] = fn_of_ref(n["r"])
+        return [guards.transfer(st, stmt)]
+    Flow(nw, [guards.EMPTY], on_slot, lambda st, b, to, on: guards.edge_assume(st, b, on)).run()
+    if not cases:
+        raise AnalysisBroken("p_tree_new_full: no store into the insert/remove/free slots under a known tree type")
     for (name, val) in enum:
         slots = cases.get(val)
         ok = slots is not None and set(slots) == {"insert_node_func", "remove_node_func", "free_node_func"} and \
@@ -289,19 +292,25 @@ def run(prog, rep):
         def on_stmt(st, b, i, stmt):
             for c in calls(stmt):
                 if c.get("callee") is None:
-                    events.append(("cb", st, c))
+                    # the variable that receives this callback's result is the stop flag as seen at this site (after inlining
+                    # a visit helper it is that helper's copy of the flag, tested right before the call)
+                    tgt = None
+                    for n in walk(stmt):
+                        if n["k"] == "asg" and any(x is c for x in calls(n["r"])) and strip_casts(n["l"])["k"] == "ref":
+                            tgt = strip_casts(n["l"])["name"]
+                    events.append(("cb", st, c, tgt))
             if stmt["k"] == "ret" and any(fe.dominates(h, b.id) for (h, body_) in fe.loops()):
-                events.append(("ret", st, stmt))
+                events.append(("ret", st, stmt, None))
             return [guards.transfer(st, stmt)]
         Flow(fe, [guards.EMPTY], on_stmt, lambda st, b, to, on: guards.edge_assume(st, b, on)).run()
-        for (k, f, n) in events:
+        for (k, f, n, tgt) in events:
             if k == "ret":
                 if guards.lookup(f, counter) != 0:
                     ok5, msg5 = False, "line %d: foreach returns inside the traversal without the thread counter known to be zero: thread links stay in the tree (a cycle)" % line(n)
             else:
-                if stopvar is None or guards.lookup(f, stopvar) != 0:
+                if tgt is None or guards.lookup(f, tgt) != 0:
                     ok5, msg5 = False, "line %d: the callback is invoked on a path where a stop request is not excluded" % line(n)
-        if not any(k == "cb" for (k, f, n) in events):
+        if not any(k == "cb" for (k, f, n, tgt) in events):
             ok5, msg5 = False, "the callback is never invoked"
     # in-order direction: the predecessor search starts at the left child and follows right links;
     # after a visit the cursor moves right; the thread link is stored in a right link (checked above)
@@ -419,7 +428,7 @@ def run(prog, rep):
                     slotv = root_var(n["l"])
                     inner = strip_casts(strip_casts(n["r"])["e"])           # member(left|right) of base
                     node_expr = guards.key(inner["base"])
-                    prev = [s_ for s_ in b.stmts[:i] if s_["k"] == "asg" and strip_casts(s_["l"])["k"] == "ref" and strip_casts(s_["l"])["name"] == owner]
+                    prev = [s_ for s_ in b.stmts[:i] if s_["k"] == "asg" and strip_casts(s_["l"])["k"] == "ref" and owner in fn.copies_of(strip_casts(s_["l"])["name"])]
                     if not prev or guards.key(prev[-1]["r"]) != node_expr:
                         oko, msg = False, "line %d: the descent steps into a child slot of %s without recording that node in %s: the new node's parent link will name another node" % (
                             line(n), node_expr, owner)
